@@ -401,12 +401,14 @@ class ProductSpace(LinearSpace):
     @property
     def real_space(self):
         """Variant of this space with real dtype."""
-        return ProductSpace(*[space.real_space for space in self.spaces])
+        return ProductSpace(*[space.real_space for space in self.spaces],
+                            weighting=self.weighting)
 
     @property
     def complex_space(self):
         """Variant of this space with complex dtype."""
-        return ProductSpace(*[space.complex_space for space in self.spaces])
+        return ProductSpace(*[space.complex_space for space in self.spaces],
+                            weighting=self.weighting)
 
     def astype(self, dtype):
         """Return a copy of this space with new ``dtype``.
@@ -435,7 +437,8 @@ class ProductSpace(LinearSpace):
             return self
         else:
             return ProductSpace(*[space.astype(dtype)
-                                  for space in self.spaces])
+                                  for space in self.spaces],
+                                weighting=self.weighting)
 
     def element(self, inp=None, cast=True):
         """Create an element in the product space.
@@ -677,7 +680,8 @@ class ProductSpace(LinearSpace):
             return self.spaces[indices]
 
         elif isinstance(indices, slice):
-            return ProductSpace(*self.spaces[indices], field=self.field)
+            return ProductSpace(*self.spaces[indices], field=self.field,
+                                weighting=self._sub_weighting(indices))
 
         elif isinstance(indices, tuple):
             # Use tuple indexing for recursive product spaces, i.e.,
@@ -712,11 +716,13 @@ class ProductSpace(LinearSpace):
                                      'product space: remaining indices '
                                      '{}'.format(rest_indcs))
                 if not rest_indcs:
-                    return ProductSpace(*spaces)
+                    return ProductSpace(*spaces, field=self.field,
+                                        weighting=self._sub_weighting(idx))
                 elif all(isinstance(space, ProductSpace) for space in spaces):
                     return ProductSpace(
                         *(space[rest_indcs] for space in spaces),
-                        field=self.field)
+                        field=self.field,
+                        weighting=self._sub_weighting(idx))
                 else:
                     raise IndexError('too many indices for recursive '
                                      'product space: remaining indices '
@@ -727,11 +733,23 @@ class ProductSpace(LinearSpace):
 
         elif isinstance(indices, list):
             return ProductSpace(*[self.spaces[i] for i in indices],
-                                field=self.field)
+                                field=self.field,
+                                weighting=self._sub_weighting(indices))
 
         else:
             raise TypeError('`indices` must be integer, slice, tuple or '
                             'list, got {!r}'.format(indices))
+
+    def _sub_weighting(self, indices):
+        """Return the weighting restricted to the parts in ``indices``."""
+        if isinstance(self.weighting, ArrayWeighting):
+            return ProductSpaceArrayWeighting(
+                np.asarray(self.weighting.array)[indices],
+                self.weighting.exponent)
+        elif isinstance(self.weighting, ConstWeighting):
+            return self.weighting
+        else:
+            return None
 
     def __str__(self):
         """Return ``str(self)``."""
